@@ -82,26 +82,35 @@ def parse_value(text):
 
 
 def parse_report(text):
-    if not text.endswith("\n") and text:
+    """Blocks are introduced by the 160-'=' rule; inside a block every line is '<label> : <value>'.
+    The labels the property names must each occur exactly once per block; other lines (a future
+    extra field) are ignored, and neither the padding nor the order of the known lines is imposed."""
+    if text and not text.endswith("\n"):
         raise ParseError("report does not end with a newline")
     lines = text.split("\n")[:-1] if text else []
+    known = {label: key for label, key in LABELS}
     blocks = []
-    i = 0
-    while i < len(lines):
-        if lines[i] != SEP:
-            raise ParseError(f"line {i + 1}: expected the 160-'=' rule, found {lines[i][:40]!r}")
-        chunk = lines[i + 1:i + 1 + len(LABELS)]
-        if len(chunk) != len(LABELS):
-            raise ParseError(f"block starting at line {i + 1} has {len(chunk)} lines")
-        entry = {}
-        for (label, key), line in zip(LABELS, chunk):
-            prefix = label.ljust(24) + ": "
-            if not line.startswith(prefix):
-                raise ParseError(f"expected line {prefix!r}, found {line[:40]!r}")
-            raw = line[len(prefix):]
-            entry[key] = raw if key in ("name", "msg") else parse_value(raw)
-        blocks.append(entry)
-        i += 1 + len(LABELS)
+    cur = None
+    for i, line in enumerate(lines):
+        if line == SEP:
+            cur = {}
+            blocks.append(cur)
+            continue
+        if cur is None:
+            raise ParseError(f"line {i + 1}: text before the first block rule: {line[:40]!r}")
+        if ": " not in line and not line.rstrip().endswith(":"):
+            raise ParseError(f"line {i + 1}: not a 'label : value' line: {line[:40]!r}")
+        label, _, raw = line.partition(": ") if ": " in line else (line.rstrip()[:-1], "", "")
+        key = known.get(label.strip())
+        if key is None:
+            continue
+        if key in cur:
+            raise ParseError(f"line {i + 1}: label {label.strip()!r} occurs twice in one block")
+        cur[key] = raw if key in ("name", "msg") else parse_value(raw)
+    for b in blocks:
+        missing = [label for label, key in LABELS if key not in b]
+        if missing:
+            raise ParseError(f"block {b.get('name')!r} lacks the line(s) {missing}")
     return blocks
 
 
